@@ -132,6 +132,27 @@ theorem accepts_sound (s : List Char) (h : accepts s = true) :
       have ht := lexAux_tokenises _ _ _ _ hl
       exact ⟨ts, t, ht, ht.flatten, (parseStart_sound ts t hp).1, (parseStart_sound ts t hp).2⟩
 
+/-- the full statement of the recogniser's correctness: accepted exactly the sentences.  Only
+    the direction `accepts → sentence` (`accepts_sound`, i.e. every non-sentence is rejected — the
+    direction the property needs) is proved; the converse (the deterministic descent with its fuel
+    finds a derivation whenever one exists) is validated on every run against the generated ANTLR
+    parser (accept/reject compared on every input), not proved. -/
+def accepts_iff_fullStatement : Prop :=
+  ∀ s : List Char, accepts s = true ↔
+    ∃ (ts : List Token) (t : StartTree), lex s = .ok ts ∧ t.yield = ts ∧ t.wf = true
+
+theorem accepts_iff_partial (s : List Char) :
+    accepts s = true → ∃ (ts : List Token) (t : StartTree), lex s = .ok ts ∧ t.yield = ts ∧ t.wf = true := by
+  intro h
+  unfold accepts at h
+  cases hl : lex s with
+  | error e => simp [hl] at h
+  | ok ts =>
+    simp only [hl] at h
+    cases hp : parseStart ts with
+    | none => simp [hp] at h
+    | some t => exact ⟨ts, t, rfl, (parseStart_sound ts t hp).1, (parseStart_sound ts t hp).2⟩
+
 example : accepts "a = 1 @".toList = false := by decide
 example : accepts "a = 1".toList = true := by decide
 
@@ -201,37 +222,23 @@ theorem pipeline_total (st : SymTab) (s : List Char) :
           have hu := hshape u hb
           exact ⟨(transform_no_panic st u hu).1, fun t ht sk env => eval_no_panic st u hu t ht sk env⟩
 
-/-! ## 1e. the bolt-backed Symbols (boltz/query_cursor.go) — partial, with a known finding -/
+/-! ## 1e. the bolt-backed Symbols (boltz/query_cursor.go) -/
 
-/-- the full statement: reading any symbol through `rowCursorImpl.IsNil` (and likewise `Eval*`)
-    never panics.  It is FALSE for the code as it is: a dotted set symbol that is read before a
-    set function has opened a cursor on it dereferences a nil `*stackedCursor`
-    (`count(kids.ss) = null`, `count(from kids where kids.ss = "x") > 0`; finding
-    composite_set_symbol_without_cursor, fix proposed in /verif/fixes/proposed). -/
-def bolt_symbols_no_panic_fullStatement : Prop := ∀ s : Option BoltSym, (rowIsNil s).isPanic = false
-
-/-- what holds: no panic for plain fields, set symbols, unknown symbols, and dotted set symbols
-    with an open cursor.  Missing for the full statement: the nil check in
-    `compositeEntitySetSymbol.Eval`. -/
-theorem bolt_symbols_no_panic_partial (s : Option BoltSym) (h : ∀ b, s = some b → b.cursorOpened = true) :
-    (rowIsNil s).isPanic = false := by
+/-- reading any symbol through `rowCursorImpl.IsNil` (and likewise `Eval*`) never panics: plain
+    fields, set symbols with or without an open cursor, unknown symbols, and — since fix 4e2e9ce —
+    dotted set symbols that are read before a set function has opened a cursor on them
+    (`count(kids.ss) = null`, `count(from kids where kids.ss = "x") > 0`) -/
+theorem bolt_symbols_no_panic (s : Option BoltSym) : (rowIsNil s).isPanic = false := by
   cases s with
   | none => rfl
   | some b =>
-    have := h b rfl
     cases b with
     | field v => rfl
     | setRuntime v => rfl
-    | composite c => cases c <;> simp [BoltSym.cursorOpened] at this ⊢ <;> rfl
+    | composite c => cases c <;> rfl
 
-/-- the witness -/
-example : ¬ bolt_symbols_no_panic_fullStatement := by
-  intro h
-  have := h (some (.composite none))
-  simp [rowIsNil, BoltSym.evalIsNil, Outcome.isPanic] at this
-
-example : (rowIsNil (some (.composite none))).isPanic = true := by decide
-example : ∀ b, some (BoltSym.setRuntime none) = some b → b.cursorOpened = true := by intro b h; cases h; rfl
+/-- the case of the former finding: no cursor, reported as nil -/
+example : rowIsNil (some (.composite none)) = .ok true := rfl
 
 /-! ## 1d. the tree-set cursor (ast/cursors.go, shared with C14) -/
 
@@ -260,10 +267,11 @@ end StorageModel.Properties.C10
 #print axioms StorageModel.Properties.C10.listener_no_panic_on_trees
 #print axioms StorageModel.Properties.C10.parse_sound
 #print axioms StorageModel.Properties.C10.accepts_sound
+#print axioms StorageModel.Properties.C10.accepts_iff_partial
 #print axioms StorageModel.Properties.C10.transform_no_panic
 #print axioms StorageModel.Properties.C10.eval_no_panic
 #print axioms StorageModel.Properties.C10.pipeline_total
-#print axioms StorageModel.Properties.C10.bolt_symbols_no_panic_partial
+#print axioms StorageModel.Properties.C10.bolt_symbols_no_panic
 #print axioms StorageModel.Properties.C10.tree_cursor_enumerates
 #print axioms StorageModel.Properties.C10.tree_cursor_no_panic
 #print axioms StorageModel.Properties.C10.lex_lossless
